@@ -97,6 +97,10 @@ def run_shard(shard, rec):
                 hostile()
                 check_case(c, rec)
                 check_case(r, rec)
+                if r.enc is None and len(r.d) == 10 and r.d[6:10] != b"\0\0\0\0":
+                    # a failed response to a command that had asked for response encryption: still header only
+                    check_case(cases.Case(r.t, r.d, r.cc, True, origin=r.origin, intended=None, sig=r.sig + ("enc-flag",)), rec)
+                    rec.count("failed_responses_with_encryption_flag")
                 rec.add("configs", [c.sig[2]])
         else:
             for c, r in cases.corpus_cases(shard["start"], shard["step"]):
@@ -122,6 +126,8 @@ def finish(m, tier):
     for k in ("codes_Command", "codes_Response"):
         if len(m["sets"].get(k, ())) < len(P["command_codes"]):
             inc.append(f"{k}: only {len(m['sets'].get(k, ()))} codes covered")
+    if not m["counters"].get("failed_responses_with_encryption_flag"):
+        inc.append("no failed response was decoded with the response-encryption flag")
     if not m["counters"].get("hostile_history_scenes"):
         inc.append("no hostile history scene was run")
     inc += probes.missing(m, ANCHORS)
